@@ -899,8 +899,19 @@ C20_DestDel == [][\A b \in Branches : (BN(b) \in DOMAIN refs /\ BN(b) \notin DOM
                     /\ TagN(b) \in DOMAIN refs' /\ refs'[TagN(b)] = refs[BN(b)]]_vars
 \* C10 at design level (atomic jobs): when the same evaluation is delivered again and again with nothing else
 \* happening, after the first delivery at most two more do something: the fourth and later deliveries change nothing (no ref moves, no pull request, no comment)
+PlanOf(kind, arg) ==
+  IF kind = "EvalPR" THEN EvalPrPlan(G, refs, arg)
+  ELSE IF kind = "EvalChild" THEN EvalPrPlan(G, refs, arg[1])
+  ELSE IF kind = "EvalCommit" THEN EvalCommitPlan(G, refs, arg)
+  ELSE IF kind = "ForceMerge" THEN ForceMergePlan(G, refs)
+  ELSE IF kind = "RebuildQueues" THEN RebuildPlan(G, refs)
+  ELSE IF kind = "DeleteQueues" THEN DeleteQueuesPlan(G, refs)
+  ELSE IF kind = "CreateBranch" THEN CreateBranchPlan(G, refs, arg)
+  ELSE DeleteBranchPlan(G, refs, arg)
+\* the job of this step posts a comment (a message equal to the previous one would not change lastmsg)
+Posts(kind, arg) == LET pl == Dedupe(PlanOf(kind, arg).plan, lastmsg) IN \E j \in DOMAIN pl : pl[j].k = "comment"
 C10_Converge == [][(TrackRep /\ Atomic /\ last'[1] = "job" /\ rep'.n >= 4) =>
-                     (refs' = refs /\ child' = child /\ lastmsg' = lastmsg /\ greeted' = greeted /\ pr' = pr)]_vars
+                     (refs' = refs /\ child' = child /\ greeted' = greeted /\ pr' = pr /\ ~ Posts(last'[2], last'[3]))]_vars
 C19_Children == \A x \in child : (IsLive(x[2]) /\ IsLive(pr[x[1]].dst)) => pr[x[1]].st # "none" /\ \E j \in 2..Len(Targets(pr[x[1]].dst)) : Targets(pr[x[1]].dst)[j] = x[2]
 TypeOK == G.n >= NBase
 =============================================================================
